@@ -680,10 +680,9 @@ class PositionsMonitor(_monitor_base()):
        C20.existing_order_kept: in every position column (followed through table / column renames
        by its metadata refs), the rows that were there before the bundle and whose position the
        bundle did not write explicitly keep their relative order;
-     closing probe of every history (finish): %d single inserts at one place of one table, the
-       full 2-state contract of part 4 after each (C20.total / all_finite_distinct /
+     closing probe of every history (finish): PROBE_INSERTS single inserts at one place of one
+       table, the full 2-state contract of part 4 after each (C20.total / all_finite_distinct /
        existing_order_kept / new_at_requested_place)."""
-  __doc__ = __doc__ % 56
   seeds = ("basic", "refs")
   length = 5
   weights = {"add": 14, "bulk_add": 10, "remove": 8, "bulk_remove": 4, "add_col": 6, "remove_col": 4,
@@ -979,6 +978,17 @@ def main():
     "keeps 40 failure records per worker); the counts under known_findings_matched are therefore "
     "capped, not totals",
     "frame clause C20.input_list_untouched is taken from the function's docstring, not the statement",
+    "engine histories, C20.existing_order_kept: 'rows that were there before' = rows present before "
+    "and after the bundle that no [Bulk]UpdateRecord of the bundle wrote the position column of and "
+    "that no add / remove of the bundle names (a removed id can be handed out again); columns touched "
+    "by ModifyColumn, tables named by any other action kind (ReplaceTableData, AddOrUpdateRecord, ...) "
+    "and bundles containing ApplyUndoActions / ApplyDocActions are not constrained by this clause; rows "
+    "that shared a position before (a known finding) are not constrained relative to each other",
+    "engine histories / rebuilt position columns: a new row without an explicit request asks for the "
+    "end (+inf, the column default); a request equal to an existing position inserts before that row",
+    "closing probe: only position columns holding finite pairwise-distinct values when the probe "
+    "starts are examined (the probe checks that the column still WORKS, the invariant clause "
+    "C20.position_columns_distinct has already reported a column that does not hold it)",
     common.SHIM_ASSUMPTION,
   ]
   X, K = pools(tier)
